@@ -1,4 +1,6 @@
-// C19 correspondence harness, part 2 (injected into package internal/client/consensus/grandpa).
+// C19 correspondence harness, part 2. Since round 4 it is compiled into the test binary of lib/grandpa
+// (one test binary less to build and link in the quick tier) and drives the EXPORTED entry points of
+// internal/client/consensus/grandpa: DecodeGrandpaJustificationVerifyFinalizes and GrandpaJustification.Verify.
 //
 // Builds a SCALE-encoded GRANDPA justification with real ed25519 keys, real header hashes and
 // real (or deliberately wrong) signatures and runs DecodeGrandpaJustificationVerifyFinalizes at
@@ -24,6 +26,10 @@
 //   pl -> <hand 32> <NewLocalizedPayload uint32> <hand 64> <NewLocalizedPayload uint64>     (hex)
 //   <o1;o2;..> <b1,b2,..|->
 //     o_k = <r32>/<r64> for order k, r: ok | decode | target | commit | sig | ancestry | unused | other | panic | novoters
+//           | verifydiff (GrandpaJustification.Verify(setID, AuthorityList), run on the identity order at uint64,
+//             answered otherwise than DecodeGrandpaJustificationVerifyFinalizes)
+//     `novoters -` = the weight list yields no voter set AND Verify(setID, AuthorityList) rejects with
+//           "invalid authorities set" at both widths; `novoters-bad -` if Verify answers anything else
 //     b_i = <verdict32><verdict64>:<first 8 bytes of the 64-bit-width signature> for precommit i of the identity order,
 //           verdicts recorded by an independent crypto/ed25519 verification of the localized payload
 package grandpa
@@ -32,11 +38,11 @@ import (
 	stded25519 "crypto/ed25519"
 	"encoding/binary"
 	"encoding/hex"
-	"errors"
 	"fmt"
 	"strings"
 	"testing"
 
+	client_grandpa "github.com/ChainSafe/gossamer/internal/client/consensus/grandpa"
 	primitives "github.com/ChainSafe/gossamer/internal/primitives/consensus/grandpa"
 	ced25519 "github.com/ChainSafe/gossamer/internal/primitives/core/ed25519"
 	"github.com/ChainSafe/gossamer/internal/primitives/core/hash"
@@ -72,6 +78,7 @@ type c19JPc struct {
 
 type c19JCase struct {
 	weights               []grandpa.IDWeight[string]
+	ids                   []int
 	tree                  c19Tree
 	headers               []int
 	fblk, tblk            int
@@ -94,6 +101,7 @@ func c19ParseJ(f []string) (c c19JCase, ok bool) {
 			p := strings.Split(w, ":")
 			pub := c19Pub(int(vu.UnX(p[0])))
 			c.weights = append(c.weights, grandpa.IDWeight[string]{ID: string(pub[:]), Weight: vu.UnX(p[1])})
+			c.ids = append(c.ids, int(vu.UnX(p[0])))
 		}
 	}
 	c.tree = c19Tree{base: vu.UnX(f[2]), parents: c19Ints(f[3])}
@@ -231,7 +239,7 @@ func c19ClassJ(err error) string {
 		return "decode"
 	case strings.Contains(s, "invalid commit target"):
 		return "target"
-	case errors.Is(err, errBadJustification) && strings.Contains(s, "invalid commit in grandpa justification"):
+	case strings.Contains(s, "invalid commit in grandpa justification"):
 		return "commit"
 	case strings.Contains(s, "invalid signature for precommit"):
 		return "sig"
@@ -243,7 +251,27 @@ func c19ClassJ(err error) string {
 	return "other"
 }
 
-func c19VerifyJ[N runtime.Number](c c19JCase, voters *grandpa.VoterSet[string], perm []int) (out string, bits []bool, labels []string) {
+func c19AuthorityList(c c19JCase) primitives.AuthorityList {
+	var al primitives.AuthorityList
+	for i, w := range c.weights {
+		al = append(al, primitives.AuthorityIDWeight{AuthorityID: c19Pub(c.ids[i]), AuthorityWeight: primitives.AuthorityWeight(w.Weight)})
+	}
+	return al
+}
+
+// c19VerifyNoVoters: no voter set; Verify(setID, AuthorityList) must reject with "invalid authorities set"
+func c19VerifyNoVoters[N runtime.Number](c c19JCase) (ok bool) {
+	defer func() {
+		if r := recover(); r != nil {
+			ok = false
+		}
+	}()
+	gj := client_grandpa.GrandpaJustification[hash.H256, N]{Justification: primitives.GrandpaJustification[hash.H256, N]{Round: c.round}}
+	err := gj.Verify(c.setID, c19AuthorityList(c))
+	return err != nil && strings.Contains(err.Error(), "invalid authorities set")
+}
+
+func c19VerifyJ[N runtime.Number](c c19JCase, voters *grandpa.VoterSet[string], perm []int, viaVerify bool) (out string, bits []bool, labels []string) {
 	defer func() {
 		if r := recover(); r != nil {
 			out = "panic"
@@ -275,9 +303,19 @@ func c19VerifyJ[N runtime.Number](c c19JCase, voters *grandpa.VoterSet[string], 
 	if err != nil {
 		return "encode", bits, labels
 	}
-	_, err = DecodeGrandpaJustificationVerifyFinalizes[hash.H256, N, runtime.BlakeTwo256](enc,
-		HashNumber[hash.H256, N]{Hash: hh[c.fblk], Number: N(c.fnum)}, c.setID, *voters)
-	return c19ClassJ(err), bits, labels
+	_, err = client_grandpa.DecodeGrandpaJustificationVerifyFinalizes[hash.H256, N, runtime.BlakeTwo256](enc,
+		client_grandpa.HashNumber[hash.H256, N]{Hash: hh[c.fblk], Number: N(c.fnum)}, c.setID, *voters)
+	out = c19ClassJ(err)
+	if viaVerify {
+		// the other entry point: Verify(setID, AuthorityList) builds the voter set itself and does not look at a
+		// finalized target, so it must answer as the decode path does for fblk/fnum = the commit target
+		gj := client_grandpa.GrandpaJustification[hash.H256, N]{Justification: j}
+		v := c19ClassJ(gj.Verify(c.setID, c19AuthorityList(c)))
+		if out != "target" && v != out {
+			out = "verifydiff"
+		}
+	}
+	return out, bits, labels
 }
 
 func c19RunJ(in string) string {
@@ -294,14 +332,17 @@ func c19RunJ(in string) string {
 	}
 	voters := grandpa.NewVoterSet(c.weights)
 	if voters == nil {
-		return "novoters -"
+		if c19VerifyNoVoters[uint32](c) && c19VerifyNoVoters[uint64](c) {
+			return "novoters -"
+		}
+		return "novoters-bad -"
 	}
 	var outs []string
 	var b32, b64 []bool
 	var labels []string
 	for k, perm := range c.perms {
-		o32, x32, _ := c19VerifyJ[uint32](c, voters, perm)
-		o64, x64, l64 := c19VerifyJ[uint64](c, voters, perm)
+		o32, x32, _ := c19VerifyJ[uint32](c, voters, perm, false)
+		o64, x64, l64 := c19VerifyJ[uint64](c, voters, perm, k == 0)
 		if k == 0 {
 			b32, b64, labels = x32, x64, l64
 		}
